@@ -167,6 +167,21 @@ class AddressMixin:
         if max_col_idx < min_col_idx or max_row < min_row:
             return NULL_ERROR
 
+        # a side of the result is unbounded again when that side of both
+        # operands (intersection: max_ is min) or of either (union) is:
+        # 1:3 & 2:5 is 2:3, B:C & B1:C9 is B1:C9, A:A ** C2 is A:C
+        unbounded_cols = max_(0 in (self.col_idx, self.end.col_idx),
+                              0 in (other.col_idx, other.end.col_idx))
+        unbounded_rows = not unbounded_cols and max_(
+            0 in (self.row, self.end.row), 0 in (other.row, other.end.row))
+        if unbounded_cols or unbounded_rows:
+            if unbounded_cols:
+                min_col_idx = max_col_idx = None
+            else:
+                min_row = max_row = None
+            return AddressRange((min_col_idx, min_row, max_col_idx, max_row),
+                                sheet=self.sheet or other.sheet)
+
         elif max_col_idx == min_col_idx and max_row == min_row:
             return AddressCell((min_col_idx, min_row, max_col_idx, max_row),
                                sheet=self.sheet or other.sheet)
